@@ -158,12 +158,12 @@ def proof_half(prop, tier):
     names = theorems_of(os.path.join(LEAN, "Qhttp", "Props", prop + ".lean"), "Qhttp." + prop)
     for bm in bridge_mods:
         ns = bm
-        for grp in ("QhttpBridge.Sock", "QhttpBridge.Range", "QhttpBridge.Proxy"):
+        for grp in ("QhttpBridge.Sock", "QhttpBridge.Range", "QhttpBridge.Proxy", "QhttpBridge.Fs"):
             if bm.startswith(grp + "."):
                 ns = grp                     # the per-function modules of a group share its namespace
         names += theorems_of(os.path.join(LEAN, *bm.split(".")) + ".lean", ns)
     def ns_of(m):
-        for grp in ("QhttpBridge.Sock", "QhttpBridge.Range", "QhttpBridge.Proxy"):
+        for grp in ("QhttpBridge.Sock", "QhttpBridge.Range", "QhttpBridge.Proxy", "QhttpBridge.Fs"):
             if m.startswith(grp + "."):
                 return grp
         return m
